@@ -36,6 +36,7 @@ META = {
 S = 1 << 20            # count_cache_size / cache_size of the code
 INT32_MAX = 2147483647
 HEAVY_BASE = 4242      # cache slot of the preloaded keys
+QUERY_MAX = 48         # keys per container queried one by one with count() / all_gather()
 LAYOUTS = [(1, 4), (2, 2), (2, 3), (3, 2)]
 POLICIES = ["uniform", "racer", "starve", "late", "burst"]
 ROUTINGS = ["NONE", "NR", "NLNR"]
@@ -48,7 +49,10 @@ RULE = ("seeded scripts: per rank and phase a list of main-context inserts and h
         "replay; heavy (two thirds of the cases): every rank starts phase 0 with verif_cache_insert_n(key, INT32_MAX-3..INT32_MAX-1) on a key of "
         "its own (also a second key of the same slot) followed by 1..6 ordinary inserts of it from main, from a handler sent to itself and "
         "from a handler forwarded back by another rank, counted as n inserts (64-bit) and replayed as one `ins k n` label, so the "
-        "saturation guard must flush exactly when the cached count reaches 2147483647; non-trivial = at least one insert was issued while the same rank was inside the send of a flush")
+        "saturation guard must flush exactly when the cached count reaches 2147483647; mask (a quarter of the cases): the main program holds a "
+        "ygm::detail::interrupt_mask over runs of 3..8 script ops with local_progress() calls inside — no handler may start while it is "
+        "alive; environment (rotated): YGM_COMM_ISSEND_FREQ 0/1/8, YGM_COMM_NUM_IRECVS 1/2/8, YGM_COMM_NUM_ISENDS_WAIT 0/1/4, "
+        "SIMMPI_PLACEMENT cyclic for a third of the multi-node cases; wide cases use 4800 keys; non-trivial = at least one insert was issued while the same rank was inside the send of a flush")
 
 
 class Rng:
@@ -69,7 +73,7 @@ class Rng:
         return self.next() % n if n else 0
 
 
-def gen_script(seed, nranks, nphases, nops, bases, J, hpct=45, fwdpct=40, vmax=1, hot=70, vmap=None, twin=False, heavy=False):
+def gen_script(seed, nranks, nphases, nops, bases, J, hpct=45, fwdpct=40, vmax=1, hot=70, vmap=None, twin=False, heavy=False, mask=False):
     """returns (lines, universe, ops); ops = [(phase, rank, kind, d, k, v, d2, k2, v2)] — what the script asks for; what is
     actually contributed on a communicator of a given size is `contributions(ops, size)`.  twin: keys of two containers,
     container of key k = (k >> 20) >= J"""
@@ -114,11 +118,24 @@ def gen_script(seed, nranks, nphases, nops, bases, J, hpct=45, fwdpct=40, vmax=1
 
     if heavy:
         universe += [HEAVY_BASE + (20 + j) * S for j in range(2 * nranks)]
+    mg = Rng(seed ^ 0x3a5c0de)        # separate stream: where the main program holds an interrupt_mask
     for ph in range(nphases):
         for r in range(nranks):
             if heavy and ph == 0:
                 heavy_segment(ph, r)
+            left = 0                  # ops left in the current masked section
             for _ in range(nops):
+                if mask:
+                    if left == 0 and mg.below(100) < 12:
+                        lines.append(f"{r} M+")
+                        left = 3 + mg.below(6)
+                    elif left > 0:
+                        if mg.below(100) < 35:
+                            lines.append(f"{r} p")          # progress call inside the masked section
+                        left -= 1
+                        if left == 0:
+                            lines.append(f"{r} p")
+                            lines.append(f"{r} M-")
                 k, v = key(), val()
                 if g.below(100) < hpct:
                     d = g.below(nranks)
@@ -131,9 +148,14 @@ def gen_script(seed, nranks, nphases, nops, bases, J, hpct=45, fwdpct=40, vmax=1
                 else:
                     lines.append(f"{r} i {k} {v}")
                     ops.append((ph, r, "i", -1, k, v, -1, 0, 0))
+            if mask and left > 0:
+                lines.append(f"{r} p")
+                lines.append(f"{r} M-")
             lines.append(f"{r} b")
     if twin:
         lines.insert(0, f"T {J}")
+    if len(universe) > QUERY_MAX:
+        lines.insert(0, f"Q {QUERY_MAX}")      # count(k) / all_gather are collective per key: query a prefix only
     return lines, universe, ops
 
 
@@ -182,6 +204,27 @@ def split_phases(lines):
     return res
 
 
+def phys_node(case, r):
+    """node of world rank r (SIMMPI_PLACEMENT: block = r / ppn, cyclic = r % nodes)"""
+    return r % case["nodes"] if case.get("placement") == "cyclic" else r // case["ppn"]
+
+
+def layout_of(case, members):
+    """what ygm::detail::layout computes for a communicator with these world ranks (in rank order): per communicator
+    rank (node_id, local_id); local_id = position among the members of the same node, node_id = position among the
+    members with the same local_id"""
+    loc, cnt = [], {}
+    for r in members:
+        nd = phys_node(case, r)
+        loc.append(cnt.get(nd, 0))
+        cnt[nd] = cnt.get(nd, 0) + 1
+    nid, cnt2 = [], {}
+    for l in loc:
+        nid.append(cnt2.get(l, 0))
+        cnt2[l] = cnt2.get(l, 0) + 1
+    return list(zip(nid, loc))
+
+
 def views(case, sr):
     """the communicator runs of one process run: [{name, members (world ranks in communicator order), ppn, events{cr},
     outs{cr}, bad}] — the world run and, when the case has subcomm, one run per colour of the split"""
@@ -192,10 +235,12 @@ def views(case, sr):
     po = {r: split_phases(sr.outs.get(r, [])) for r in range(n)}
     groups = [("world", list(range(n)))]
     if case.get("subcomm"):
+        wl = layout_of(case, list(range(n)))
+
         def colour(r):
             if case.get("split", 0) == 0:
-                return (r % ppn) % 2
-            return (r // ppn) % 2 if nodes > 1 else (0 if r < n // 2 else 1)
+                return wl[r][1] % 2
+            return wl[r][0] % 2 if nodes > 1 else (0 if r < n // 2 else 1)
         for c in (0, 1):
             m = [r for r in range(n) if colour(r) == c]
             if m:
@@ -204,8 +249,8 @@ def views(case, sr):
         groups = groups[1:] + groups[:1]
     res = []
     for name, members in groups:
-        v = {"name": name, "members": members, "ppn": sum(1 for r in members if r // ppn == members[0] // ppn),
-             "events": {}, "outs": {}, "bad": None}
+        v = {"name": name, "members": members, "ppn": sum(1 for r in members if phys_node(case, r) == phys_node(case, members[0])),
+             "coords": layout_of(case, members), "events": {}, "outs": {}, "bad": None}
         for cr, r in enumerate(members):
             e, o = pe[r].get(name), po[r].get(name)
             if e is None or o is None:
@@ -340,6 +385,19 @@ def tokens(events, me=None, owner=None, cid=None, ncont=1):
     return toks, st
 
 
+def mask_violations(events):
+    """handler executions that START while the main program's interrupt_mask object is alive (harness events M+ / M-)"""
+    bad, alive, pos = [], False, 0
+    for i, e in enumerate(events):
+        if e == "M+":
+            alive, pos = True, i
+        elif e == "M-":
+            alive = False
+        elif e == "X+" and alive:
+            bad.append({"event_index": i, "mask_taken_at": pos, "before": events[max(pos, i - 6):i]})
+    return bad
+
+
 def parse_model(ans):
     """answer line of the driver -> dict"""
     w = ans.split()
@@ -380,6 +438,12 @@ def add_dimensions(cases, g):
         c["split"] = (i // 8) % 2 if c["subcomm"] else 0
         c["twin"] = 1 if i % 5 == 1 else 0
         c["heavy"] = 1 if i % 3 != 1 else 0
+        c["mask"] = 1 if i % 4 == 3 else 0
+        # environment dimension, rotated over the cases
+        c["issend_freq"] = [8, 0, 1][i % 3]
+        c["num_irecvs"] = [8, 1, 2][(i // 3) % 3]
+        c["isends_wait"] = [4, 0, 1][(i // 2) % 3]
+        c["placement"] = "cyclic" if (c["nodes"] > 1 and i % 3 == 2) else "block"
     return cases
 
 
@@ -390,7 +454,9 @@ def make_cases(tier, seed):
     for i in range(nrun):
         nodes, ppn = LAYOUTS[i % len(LAYOUTS)]
         kind = i % 5
-        if kind == 4:      # spread: several slots, few collisions (flush-all visits many slots in order)
+        if i % 13 == 7:    # wide: thousands of keys, so that a flush-all is long (many sends inside one callback)
+            bases, J, nops, hot = list(range(0, 2400)), 2, 150, 0
+        elif kind == 4:    # spread: several slots, few collisions (flush-all visits many slots in order)
             bases, J, nops, hot = [0, 3, 5, 9, 77, 1000, 1048575], 2, 24, 20
         elif kind == 3:    # two hot slots
             bases, J, nops, hot = [5, 6], 4, 40, 50
@@ -409,11 +475,14 @@ def run_case(binary, scratch, case, idx, mode="cset", extra_args=(), vmap=None):
     n = case["nodes"] * case["ppn"]
     lines, universe, ops = gen_script(case["script_seed"], n, case["phases"], case["nops"], case["bases"], case["J"],
                                       hpct=case["hpct"], fwdpct=case["fwdpct"], vmax=case.get("vmax", 1), hot=case["hot"], vmap=vmap,
-                                      twin=bool(case.get("twin")), heavy=bool(case.get("heavy")) and mode == "cset")
+                                      twin=bool(case.get("twin")), heavy=bool(case.get("heavy")) and mode == "cset",
+                                      mask=bool(case.get("mask")) and mode in ("cset", "rmap", "rarr"))
     path = scratch.script(f"s{idx}.txt", lines, universe, case.get("len"))
     args = [mode, path] + (list(extra_args) or [0]) + [case.get("subcomm", 0), case.get("split", 0)]
     sr = C.run_sim(binary, args, nodes=case["nodes"], ppn=case["ppn"],
-                   env={"YGM_COMM_BUFFER_SIZE_KB": case["buffer_kb"], "YGM_COMM_ROUTING": case["routing"]},
+                   env={"YGM_COMM_BUFFER_SIZE_KB": case["buffer_kb"], "YGM_COMM_ROUTING": case["routing"],
+                        "YGM_COMM_ISSEND_FREQ": case.get("issend_freq", 8), "YGM_COMM_NUM_IRECVS": case.get("num_irecvs", 8),
+                        "YGM_COMM_NUM_ISENDS_WAIT": case.get("isends_wait", 4), "SIMMPI_PLACEMENT": case.get("placement", "block")},
                    sim_seed=case["sim_seed"], policy=case["policy"], timeout=30, max_steps=400000, livelock=200000)
     return sr, universe, ops
 
@@ -454,7 +523,7 @@ def judge_cset(res, case, view, c, ncont, universe, ops, model_ok, acc):
     g = len(view["members"])
     cid = container_of(case)
     contrib = [x for x in contributions(ops, g) if cid(x[1]) == c]
-    uni = [k for k in universe if cid(k) == c]
+    uni = [k for k in universe if cid(k) == c][:QUERY_MAX]
     fails = []
     tally = {}
     for (_, k, v) in contrib:
@@ -524,8 +593,9 @@ def judge_cset(res, case, view, c, ncont, universe, ops, model_ok, acc):
                 if cnt == INT32_MAX:
                     res.count("saturation-flushes (count reached INT32_MAX, replayed through the model)")
         res.count("preloads (verif_cache_insert_n)", sum(1 for (_, _, v) in contrib if v > 1))
-        if mismatch is None and msum != {k: v for k, v in real_count.items() if v}:
-            mismatch = {"relation": "sum of the counts the model emits = count(k) of the real run", "what": f"model {msum} real {real_count}"}
+        if mismatch is None and msum != fa:
+            bad = {k: (msum.get(k), fa.get(k)) for k in set(msum) | set(fa) if msum.get(k) != fa.get(k)}
+            mismatch = {"relation": "sum of the counts the model emits = count of the real run (for_all of all ranks)", "what": f"key: (model, real) {dict(list(bad.items())[:8])}"}
         # every packed key executes exactly once on the owner (C01, observed)
         packed = sorted(k for r in range(g) for (k, _) in per_rank[r][1]["packed_kv"][c])
         applied = sorted(k for r in range(g) for (k, _) in per_rank[r][1]["applied_kv"][c])
@@ -539,10 +609,34 @@ def judge_cset(res, case, view, c, ncont, universe, ops, model_ok, acc):
                 for p in pans:
                     for (_, k, cnt) in p["out"]:
                         psum[k] = psum.get(k, 0) + cnt
-                pinned_explains = psum == {k: v for k, v in real_count.items() if v}
+                pinned_explains = psum == fa
             else:
                 pinned_explains = False
     return fails, mismatch, pinned_explains, real_count
+
+
+def check_masks(res, case, view, sig_base, mode):
+    """C08's clause as seen from the container's user: while the main program holds an interrupt_mask no handler starts,
+    whatever masks the container takes and releases inside"""
+    g = len(view["members"])
+    sections = sum(1 for r in range(g) for e in view["events"][r] if e == "M+")
+    progress = sum(1 for r in range(g) for e in view["events"][r] if e == "P+")
+    res.count("masked-sections-of-the-main-program", sections)
+    res.count("progress-calls", progress)
+    for r in range(g):
+        bad = mask_violations(view["events"][r])
+        if bad:
+            res.oracle_failures.append({"what": where(view, 0, 1) + f"a handler started on rank {r} while the main program's interrupt_mask was alive",
+                                        "signature": sig_base + "-handler-under-user-mask",
+                                        "case": dict(case, mode=mode, failed_on=view["name"], detail=bad[0], count=len(bad))})
+            return
+
+
+def env_counts(res, case):
+    res.count(f"issend-freq-{case.get('issend_freq', 8)}")
+    res.count(f"num-irecvs-{case.get('num_irecvs', 8)}")
+    res.count(f"isends-wait-{case.get('isends_wait', 4)}")
+    res.count(f"placement-{case.get('placement', 'block')}")
 
 
 def check_cset(res, case, sr, universe, ops, model_ok):
@@ -559,6 +653,7 @@ def check_cset(res, case, sr, universe, ops, model_ok):
     res.count(f"routing-{case['routing']}")
     res.count(f"policy-{case['policy']}")
     res.count(f"subcomm-{['none', 'sub-then-world', 'world-then-sub'][case.get('subcomm', 0)]}")
+    env_counts(res, case)
     if ncont > 1:
         res.count("two-containers-at-once")
     nested_total = 0
@@ -570,6 +665,7 @@ def check_cset(res, case, sr, universe, ops, model_ok):
                                         "case": dict(case, mode="cset")})
             continue
         per_rank = [tokens(view["events"][r], cid=cid, ncont=ncont) for r in range(g)]
+        check_masks(res, case, view, "counting_set", "cset")
         stats = {k: sum(st[k] for _, st in per_rank) for k in ("inserts", "nested_inserts", "nested_same_slot", "packs", "applied", "unbalanced", "returns", "cross_container_nesting")}
         depth = max(st["max_depth"] for _, st in per_rank)
         nested_total += stats["nested_inserts"]
